@@ -8,7 +8,7 @@ pid, out = sys.argv[1], sys.argv[2]
 checks = [pid] + sys.argv[3:]
 for d in sorted(glob.glob(os.path.join(out, "m*"))):
     i = os.path.basename(d)
-    dst = f"/verif/seeded/{pid}-{i}"
+    dst = f"/verif/seeded/{pid}-{os.environ.get('SEED_PREFIX', '')}{i}"
     os.makedirs(dst, exist_ok=True)
     for f in os.listdir(d):
         shutil.copy(os.path.join(d, f), dst)
@@ -24,11 +24,11 @@ for d in sorted(glob.glob(os.path.join(out, "m*"))):
           "demo-with-change: fails (good)" in conf and "demo-without-change: pass (good)" in conf)
     meta["confirmed_by_lead"] = conf
     meta["confirmed"] = ok
-    print(f"== {pid}-{i}: confirmed={ok} {conf if not ok else ''}")
+    print(f"== {os.path.basename(dst)}: confirmed={ok} {conf if not ok else ''}")
     if ok:
         r = subprocess.run(["/verif/seedrun.sh", os.path.join(dst, "patch.diff")] + checks, capture_output=True, text=True)
         print(r.stdout.strip())
-        meta["checks_run"] = "./seedrun.sh seeded/%s-%s/patch.diff %s (quick tier)" % (pid, i, " ".join(checks))
+        meta["checks_run"] = "./seedrun.sh seeded/%s/patch.diff %s (quick tier)" % (os.path.basename(dst), " ".join(checks))
         meta["check_output"] = r.stdout.strip().splitlines()
         meta["detected"] = "VIOLATION" in r.stdout
         meta["detected_with_concrete_input"] = any("VIOLATION" in l and "no-failing-input-found" not in l for l in r.stdout.splitlines())
